@@ -154,3 +154,16 @@ func RenameShared(kids []*S) []*S {
 	apply(out, nil)
 	return out
 }
+
+// WithTypedefDefaults returns a copy of the forest in which every leaf without a default of its
+// own (the mandatory ones too, key leaves excepted) takes its type from a typedef that has a
+// default: a default that comes from the type, and a mandatory leaf that must NOT get it.
+func WithTypedefDefaults(kids []*S) []*S {
+	out := Clone(kids)
+	for _, n := range Nodes(out) {
+		if n.Kind == "leaf" && n.Default == "" && !n.UniqVals {
+			n.TypedefDefault = true
+		}
+	}
+	return out
+}
